@@ -52,7 +52,7 @@ func (a *asm) push(v *big.Int) *asm {
 	a.b = append(a.b, bs...)
 	return a
 }
-func (a *asm) pushN(n uint64) *asm  { return a.push(new(big.Int).SetUint64(n)) }
+func (a *asm) pushN(n uint64) *asm { return a.push(new(big.Int).SetUint64(n)) }
 func (a *asm) pushB(b []byte) *asm { return a.push(new(big.Int).SetBytes(b)) }
 
 // returnTop: MSTORE the top word at 0 and RETURN it
